@@ -202,6 +202,17 @@ pub fn message(rng: &mut Prng) -> Vec<u8> {
     if rng.chance(1, 96) {
         return rng.bytes(1 << 20);
     }
+    // lengths around the powers of two at which a chunked or length-limited hashing front end would
+    // change its behaviour (2^16, 2^17, 2^20), and - very rarely - around 2^24 and 2^25; these messages
+    // are one repeated byte (the content of a long message is not what matters, and plans stay small)
+    if rng.chance(1, 64) {
+        let len = *rng.pick(&[65_535usize, 65_536, 65_537, 100_000, 131_071, 131_073, (1 << 20) - 1, (1 << 20) + 1]);
+        return vec![rng.byte(); len];
+    }
+    if rng.chance(1, 3000) {
+        let len = *rng.pick(&[(1usize << 24) - 41, (1 << 24) - 40, (1 << 24) - 39, (1 << 24) + 1, (1 << 25) + 3]);
+        return vec![rng.byte(); len];
+    }
     let len = match rng.below(12) {
         0 => 0,
         1 => 1,
